@@ -256,6 +256,17 @@ theorem wf_opProgram (o : Opts) (op : Op) (i : List Nat) (h : Inv o i) :
     cases fit
     · rfl
     · exact wf_fitStep o 0 i h0 h3
+  | refresh fitted =>
+    unfold opProgram
+    cases o.search with
+    | cbo =>
+      have hi := wf_optimizerInit o 0 i h0
+      rw [wfGo_append, hi.1, Bool.true_and]
+      cases fitted
+      · rfl
+      · exact wfGo_mono _ i _ (subset_after _ i) (wf_fitStep o 0 i h0 h3)
+    | random => rfl
+    | regevo => rfl
   | ask n fitted randomPts =>
     unfold opProgram
     cases hs : o.search with
